@@ -117,7 +117,60 @@ func markGoroutineBody(fl *ast.FuncLit) {
 var (
 	guardedBy = map[string]string{} // field name -> mutex field name (per file, field names are unique enough here)
 	locksetOn bool
+	curInfo   *types.Info
+	// aliases: local variables of map type that were assigned from a guarded field (x.f or x.f[k]) somewhere in the
+	// file: object -> (receiver identifier, mutex field). Reading or writing through them is an access to guarded data.
+	aliases = map[types.Object][2]string{}
 )
+
+// collectAliases finds `v := x.f[k]` / `v, ok := x.f[k]` / `v = x.f` where v has map type.
+func collectAliases(f *ast.File, info *types.Info) {
+	aliases = map[types.Object][2]string{}
+	if info == nil {
+		return
+	}
+	guardOf := func(e ast.Expr) (string, string, bool) {
+		for {
+			switch v := e.(type) {
+			case *ast.IndexExpr:
+				e = v.X
+				continue
+			case *ast.SelectorExpr:
+				if id, ok := v.X.(*ast.Ident); ok {
+					if mu, ok := guardedBy[v.Sel.Name]; ok {
+						return id.Name, mu, true
+					}
+				}
+			}
+			return "", "", false
+		}
+	}
+	ast.Inspect(f, func(n ast.Node) bool {
+		as, ok := n.(*ast.AssignStmt)
+		if !ok || len(as.Rhs) != 1 || len(as.Lhs) == 0 {
+			return true
+		}
+		recv, mu, ok := guardOf(as.Rhs[0])
+		if !ok {
+			return true
+		}
+		id, ok := as.Lhs[0].(*ast.Ident)
+		if !ok || id.Name == "_" {
+			return true
+		}
+		obj := info.Defs[id]
+		if obj == nil {
+			obj = info.Uses[id]
+		}
+		if obj == nil {
+			return true
+		}
+		if _, isMap := obj.Type().Underlying().(*types.Map); isMap {
+			aliases[obj] = [2]string{recv, mu}
+		}
+		return true
+	})
+}
 
 func collectGuarded(f *ast.File) {
 	guardedBy = map[string]string{}
@@ -214,6 +267,19 @@ func touches(s ast.Stmt) (out [][3]string) {
 		ast.Inspect(e, func(n ast.Node) bool {
 			if _, ok := n.(*ast.FuncLit); ok {
 				return false
+			}
+			if aid, ok := n.(*ast.Ident); ok && curInfo != nil {
+				if al, ok := aliases[curInfo.Uses[aid]]; ok {
+					w := "r"
+					if write {
+						w = "w"
+					}
+					if k := al[0] + "." + al[1] + "." + w; !seen[k] {
+						seen[k] = true
+						out = append(out, [3]string{al[0], al[1], w})
+					}
+				}
+				return true
 			}
 			se, ok := n.(*ast.SelectorExpr)
 			if !ok {
@@ -523,7 +589,7 @@ func main() {
 				files = append(files, f)
 				names = append(names, name)
 			}
-			info := &types.Info{Types: map[ast.Expr]types.TypeAndValue{}}
+			info := &types.Info{Types: map[ast.Expr]types.TypeAndValue{}, Defs: map[*ast.Ident]types.Object{}, Uses: map[*ast.Ident]types.Object{}}
 			conf := types.Config{Importer: imp, Error: func(error) {}}
 			abs, _ := filepath.Abs(dir)
 			conf.Check(abs, fset, files, info) // best effort: untyped ranges are left alone
@@ -548,6 +614,8 @@ func main() {
 						if lf != "" && filepath.Clean(lf) == fn {
 							locksetOn = true
 							collectGuarded(f)
+							curInfo = info
+							collectAliases(f, info)
 						}
 					}
 					instrumentFile(f)
